@@ -11,10 +11,10 @@ PROPS['C17'] = dict(
     floor=40,
     assumptions=['XMI tempo values 300000..1000000 us so that the integer PPQN keeps the tick rate within 1 %'],
     stages=[
-        dict(name='rmi', variant='asan', harness='c17_conv.cpp', quick=1500, thorough=30000),
-        dict(name='gmf', variant='asan', harness='c17_conv.cpp', quick=800, thorough=15000),
-        dict(name='mus', variant='asan', harness='c17_conv.cpp', quick=3000, thorough=60000),
-        dict(name='xmi', variant='asan', harness='c17_conv.cpp', quick=2500, thorough=50000),
+        dict(name='rmi', variant='asan', harness='c17_conv.cpp', quick=6000, thorough=60000),
+        dict(name='gmf', variant='asan', harness='c17_conv.cpp', quick=3000, thorough=30000),
+        dict(name='mus', variant='asan', harness='c17_conv.cpp', quick=12000, thorough=120000),
+        dict(name='xmi', variant='asan', harness='c17_conv.cpp', quick=10000, thorough=100000),
         dict(name='memcheck-mus', variant='plain-d', harness='c17_conv.cpp', quick=800, thorough=16000, budget=150, wall=2400, **{'as': 'mus'},
              wrapper=['valgrind', '-q', '--error-exitcode=79', '--exit-on-first-error=yes', '--track-origins=no', '--leak-check=no']),
         dict(name='memcheck-xmi', variant='plain-d', harness='c17_conv.cpp', quick=800, thorough=16000, budget=150, wall=2400, **{'as': 'xmi'},
